@@ -364,6 +364,18 @@ func (ev *SpecEnv) field(v Val, t types.Type, name string, e ast.Expr) (Val, typ
 	if pv, ok := v.(PtrV); ok && pv.K == PCell {
 		v = ev.ex.load(ev.st, pv, "spec")
 	}
+	if pv, ok := v.(PtrV); ok && pv.K == POpaque && len(pv.Path) == 0 && ev.ex.heapObjOf(pv.Elem) != nil {
+		// a field of an object of the read-only linked heap, through a reference
+		s := pv.Elem.Underlying().(*types.Struct)
+		for i := 0; i < s.NumFields(); i++ {
+			if s.Field(i).Name() == name {
+				np := pv
+				np.Path = []int{i}
+				return ev.ex.load(ev.st, np, "spec"), s.Field(i).Type()
+			}
+		}
+		ev.fail("no field %s in %s", name, pv.Elem)
+	}
 	sv, ok := v.(StructV)
 	if !ok {
 		ev.fail("field %s of non-struct %s in %s", name, valString(v), exprString(e))
